@@ -12,7 +12,7 @@ CHECKS = {
 
 CHECKS["C03"] = dict(cat="exploration", engine="txn",
    technique="differential runtime monitor: in-memory database vs. executable RFC 7047 reference model in lock-step over generated schemas and histories",
-   text="Generated schemas (all column kinds) and long generated histories are executed by the real transaction engine and by an independent reference model from the same pre-state; per-operation results and the post-state are compared after every accepted transaction, immutable columns are compared before/after. Held = no disagreement on the transactions generated; rejected-but-RFC-accepts cases are counted, not judged.",
+   text="Generated schemas (all column kinds) and long generated histories are executed by the real transaction engine and by an independent reference model from the same pre-state; per-operation results and the post-state are compared after every accepted transaction, immutable columns are compared before/after; every third schema also gets zero-timeout wait operations (until == / !=, given rows equal to, missing one of, or exceeding the selected rows), whose outcome is judged in both directions. Held = no disagreement on the transactions generated; rejected-but-RFC-accepts cases are counted, not judged.",
    note="Correctness is relative to the harness's reference model of RFC 7047 5.1/5.2; constraint enforcement is out of domain.", ref="4/C03")
 
 CHECKS["C04"] = dict(cat="exploration", engine="txn",
